@@ -247,7 +247,9 @@ func runOffsetAPI(srv *lrsrv.Srv, drv *vh.Driver, h hist, sec *vh.Section, only 
 	}
 	fwd := forward(w, h, rank)
 	n := len(fwd)
-	exact := !h.CrossTies || len(w.Parts) == 1
+	// since f086c95 the leaf order of every cursor is the tag-line order (= partition number here), so timestamp ties
+	// across partitions are broken the same way in every incarnation: the oracle is exact for every history
+	exact := true
 	fail := func(kind, what string, pr probe, impl, spec string) {
 		res.SpecFail(vh.SpecFailure{Section: "offset-api", Kind: kind, Input: map[string]interface{}{"hist": h, "probe": pr}, Impl: impl, Spec: spec, What: what})
 	}
@@ -643,7 +645,7 @@ func byServer(n int, sizes []int, f func(srv *lrsrv.Srv, drv *vh.Driver, idx []i
 
 func sectionOffsetAPI(rng *vh.Rng) {
 	sec := res.Section("offset-api", "spec-search",
-		"histories of 1..3 partitions x 1..6 chunks (MaxChunkSize 90..400), timestamp ties inside partitions, every fourth history also across partitions (there only the timestamp sequence is compared: tie order is finding F23), WHERE and RANGE (random, full, or excluding one partition wholly); Query with Pos in {head, tail, after 1, n/3, n/2, n-1 events} and Offset k in {0, ±1, ±2, ±(n-1), ±n, ±(n+1), ±1000, ±n/2}: the page must be the slice fwd[i+k:] of the forward result (clamped at both ends), and +k followed by -k must return to the same next event; through backend.Querier and the RPC client; every call under a 15 s time-out; non-trivial = n >= 3 and k != 0, distinct by (history, probe)")
+		"histories of 1..3 partitions x 1..6 chunks (MaxChunkSize 90..400), timestamp ties inside partitions, every fourth history also across partitions (exact too: every request is a new cursor incarnation and all of them break ties in tag-line order), WHERE and RANGE (random, full, or excluding one partition wholly); Query with Pos in {head, tail, after 1, n/3, n/2, n-1 events} and Offset k in {0, ±1, ±2, ±(n-1), ±n, ±(n+1), ±1000, ±n/2}: the page must be the slice fwd[i+k:] of the forward result (clamped at both ends), and +k followed by -k must return to the same next event; through backend.Querier and the RPC client; every call under a 15 s time-out; non-trivial = n >= 3 and k != 0, distinct by (history, probe)")
 	n := 160
 	if args.Thorough {
 		n = 300
@@ -801,6 +803,11 @@ func runCurCase(srv *lrsrv.Srv, drv *vh.Driver, c curCase, sec *vh.Section, verb
 	rank := map[int]int{}
 	for r, p := range order {
 		rank[p] = r
+	}
+	// SPEC (f086c95): the leaf order is the tag-line order, i.e. the partition numbers ascending
+	if !sort.IntsAreSorted(order) {
+		res.SpecFail(vh.SpecFailure{Section: "cursor", Kind: "leaf-order-not-canonical", Input: c, Impl: orderS, Spec: "partitions in tag-line order", Finding: "F23",
+			What: "the mixer tree of a cursor is not built in tag-line order: the priority that breaks timestamp ties between partitions differs between cursor incarnations"})
 	}
 	fwd := forward(w, h, rank)
 	n := len(fwd)
